@@ -109,6 +109,11 @@ class World(object):
         self.broken = None  # set to a reason when lock-step is lost
         self.t = self._open(cfg.default, cfg.rules, overwrite=cfg.overwrite)
         self.ntrans = 0
+        # lifecycle operations (reopen / clear) so far, and whether the last op was one:
+        # part of the state key, since the in-RAM part of the index (header cache, file
+        # objects) is rebuilt by them while the bytes stay the same
+        self.nlife = 0
+        self.last_life = False
 
     # ------------------------------------------------------------------ plumbing
     def _open(self, default, rules, overwrite=False):
@@ -126,6 +131,8 @@ class World(object):
             pass
         if self.folder:
             env.wipe(self.folder)
+        for other in getattr(self, "companions", ()):
+            other.close()
 
     def store_bytes(self):
         t = self.t
@@ -141,7 +148,7 @@ class World(object):
 
     def key(self):
         a, b = self.store_bytes()
-        return (a, b, self.m.canon())
+        return (a, b, self.m.canon(), b"L%d%d" % (self.nlife, self.last_life))
 
     # ------------------------------------------------------------------ ops
     def apply(self, op):
@@ -165,6 +172,9 @@ class World(object):
             tr.exc_kind = "other"
             rep = None
         self.ntrans += 1
+        self.last_life = kind in ("reopen", "clear")
+        if self.last_life:
+            self.nlife += 1
         tr.ret = rep
         if rep is not None and hasattr(rep, "created_webentities"):
             tr.nb_created_pages = rep.nb_created_pages
